@@ -120,6 +120,11 @@ func (h *vfE2H) doSub(t, c int, eph bool, mtMs int64, sample int, buf int) int {
 	}
 	if buf == 0 {
 		ident += `,"output_buffer_size":-1`
+	} else if buf == 2 {
+		// audit A13: the smallest bounded bufio.Writer (64 bytes): every message frame (>= 34 bytes + body) makes bufio flush
+		// automatically, frames are split over several Writes; the consumer side must still read exactly the frames written
+		ident += `,"output_buffer_size":64,"output_buffer_timeout":2`
+		h.count("sub:output-buffer-64")
 	} else {
 		ident += `,"output_buffer_timeout":2`
 	}
@@ -1326,7 +1331,7 @@ func (h *vfE2H) genSub(tp *vfE2Topic) {
 	if tp.chans[c] == nil && !tp.paused && len(tp.pending) == 0 {
 		h.parkEphemeral(tp.sortedChans())
 	}
-	h.exec(fmt.Sprintf("sub %d %d %s %d %d %d", tp.t, c, kind, mt, sample, r.Intn(3)/2))
+	h.exec(fmt.Sprintf("sub %d %d %s %d %d %d", tp.t, c, kind, mt, sample, []int{0, 0, 1, 2}[r.Intn(4)]))
 }
 
 // the malformed stream: answers for ids the connection does not hold
